@@ -76,8 +76,12 @@ def compare(rec, resp, got_state):
     return None
   sig = {'rpc': last['rpc'], 'what': what, 'got': resp['err'], 'exp': exp['err']}
   sig.update(env_tags(last))
-  comps = sorted({p.split('/')[1] for p in diff_paths(got_state, rec['st']) if p.startswith('/')})
+  paths = diff_paths(got_state, rec['st'])
+  comps = sorted({p.split('/')[1] for p in paths if p.startswith('/')})
   sig['state_diff'] = ','.join(comps)
+  import re as _re
+  if what == 'state' and paths and all(_re.match(r'^/(study/[^/]+/meta|trial/[^/]+/\d+/meta)(/|$)', p) for p in paths):
+    sig['meta_only'] = True        # only metadata cells differ: the step speaks about C10 whatever the call was
   return {'sig': sig, 'hist': rec['hist'], 'got_resp': resp, 'exp_resp': exp,
           'got_state': got_state, 'exp_state': rec['st'],
           'diff': diff_paths(got_state, rec['st'])[:12]}
